@@ -11,6 +11,7 @@ import (
 	"testing"
 	"testing/synctest"
 
+	"github.com/posener/wstest"
 	"github.com/resgateio/resgate/server"
 )
 
@@ -264,5 +265,90 @@ func TestTablePost(t *testing.T) {
 			h := one(ScenarioCfg{APIEncoding: enco}, "HEAD", c[0], [3]string{c[2], "", ""}, c[1])
 			enc.Encode(Rec{"kind": "head", "enc": enco, "path": c[0], "gstatus": g["status"], "hstatus": h["status"], "ghdr": g["hdr"], "hhdr": h["hdr"]})
 		}
+	}
+}
+
+// TestTableWSUpgrade: WebSocket upgrades against the origin allow-list, with
+// and without wsHeaderAuth, and service meta on the header-auth response.
+func TestTableWSUpgrade(t *testing.T) {
+	enc, done := openOut(t, "wsupgrade")
+	defer done()
+	type res struct {
+		status int
+		hdr    map[string][]string
+		err    string
+	}
+	one := func(cfg ScenarioCfg, origin string, authOut, meta string) Rec {
+		row := Rec{"status": 0, "hdr": map[string]any{}, "reqs": []any{}, "upgraded": false}
+		synctest.Test(t, func(t *testing.T) {
+			cfg.Free, cfg.Family = true, "ws"
+			w := NewWorld(t, cfg)
+			h := map[string][]string{}
+			if origin == "EMPTY" {
+				h["Origin"] = []string{""}
+			} else if origin != "" {
+				h["Origin"] = []string{origin}
+			}
+			ch := make(chan res, 1)
+			go func() {
+				d := wstest.NewDialer(w.svc.GetWSHandlerFunc())
+				ws, resp, err := d.Dial("ws://example.org/", h)
+				r := res{}
+				if resp != nil {
+					r.status, r.hdr = resp.StatusCode, resp.Header
+				}
+				if err != nil {
+					r.err = err.Error()
+				} else {
+					ws.Close()
+				}
+				ch <- r
+			}()
+			reqs := []any{}
+			for i := 0; i < 6; i++ {
+				synctest.Wait()
+				rs := w.mq.pendingReqs()
+				if len(rs) == 0 {
+					break
+				}
+				reqs = append(reqs, rs[0].typ)
+				w.sim.reply(rs[0], authOut, "", meta)
+			}
+			synctest.Wait()
+			select {
+			case r := <-ch:
+				hd := map[string]any{}
+				for k, v := range r.hdr {
+					vs := make([]any, len(v))
+					for i, x := range v {
+						vs[i] = x
+					}
+					hd[k] = vs
+				}
+				row["status"], row["hdr"], row["upgraded"] = r.status, hd, r.err == ""
+			default:
+				row["status"] = -1
+			}
+			row["reqs"] = reqs
+			w.Teardown()
+		})
+		return row
+	}
+	for _, origin := range []string{"", "EMPTY", "null", "http://a", "HTTP://A", "http://b", "http://a.evil", "http://a:80", "http://c"} {
+		for _, ha := range []string{"", "auth.login"} {
+			r := one(ScenarioCfg{AllowOrigin: "http://a;http://c", WSHeaderAuth: ha}, origin, "ok", "")
+			r["kind"], r["origin"], r["lorigin"], r["hauth"] = "wsorigin", origin, strings.ToLower(origin), ha != ""
+			enc.Encode(r)
+		}
+	}
+	for _, hn := range []string{"Sec-Websocket-Accept", "sec-websocket-accept", "Sec-WebSocket-Extensions", "sec-websocket-protocol", "Upgrade", "Connection", "X-Test", "Set-Cookie"} {
+		r := one(ScenarioCfg{WSHeaderAuth: "auth.login"}, "", "ok", fmt.Sprintf(`{"header":{%q:["v1"]}}`, hn))
+		r["kind"], r["name"], r["cname"] = "wshdr", hn, textproto.CanonicalMIMEHeaderKey(hn)
+		enc.Encode(r)
+	}
+	for _, st := range []int{200, 299, 300, 302, 401, 404, 503, 599, 600} {
+		r := one(ScenarioCfg{WSHeaderAuth: "auth.login"}, "", "ok", fmt.Sprintf(`{"status":%d}`, st))
+		r["kind"], r["mstatus"] = "wsmeta", st
+		enc.Encode(r)
 	}
 }
